@@ -65,12 +65,17 @@ func (encryptor *QueryDataEncryptor) encryptInsertQuery(ctx context.Context, ins
 		return false, nil
 	}
 
-	if encryptor.encryptor == nil && len(insert.ReturningList) > 0 {
-		return false, encryptor.onReturning(ctx, insert.ReturningList, []*pg_query.Node{{
+	if len(insert.ReturningList) > 0 {
+		// the settings of the RETURNING columns are needed already when the RowDescription arrives,
+		// so they are collected while the query passes, not only when rows are processed
+		err := encryptor.onReturning(ctx, insert.ReturningList, []*pg_query.Node{{
 			Node: &pg_query.Node_RangeVar{
 				RangeVar: insert.GetRelation(),
 			},
 		}})
+		if encryptor.encryptor == nil {
+			return false, err
+		}
 	}
 
 	var columnsName []string
@@ -232,12 +237,15 @@ func (encryptor *QueryDataEncryptor) encryptUpdateQuery(ctx context.Context, upd
 	firstTable := tables[0].TableName
 
 	// it is expected only one table in returning tables expression, but also can have more tables in FROM statement
-	if encryptor.encryptor == nil && len(update.ReturningList) > 0 {
-		return false, encryptor.onReturning(ctx, update.ReturningList, append(update.FromClause, &pg_query.Node{
+	if len(update.ReturningList) > 0 {
+		err := encryptor.onReturning(ctx, update.ReturningList, append(update.FromClause, &pg_query.Node{
 			Node: &pg_query.Node_RangeVar{
 				RangeVar: update.GetRelation(),
 			},
 		}))
+		if encryptor.encryptor == nil {
+			return false, err
+		}
 	}
 
 	return encryptor.encryptUpdateExpressions(ctx, update, firstTable, qualifierMap, bindPlaceholders)
@@ -298,12 +306,15 @@ func (encryptor *QueryDataEncryptor) onDelete(ctx context.Context, delete *pg_qu
 		return false, nil
 	}
 
-	if encryptor.encryptor == nil && len(delete.ReturningList) > 0 {
-		return false, encryptor.onReturning(ctx, delete.ReturningList, append(delete.UsingClause, &pg_query.Node{
+	if len(delete.ReturningList) > 0 {
+		err := encryptor.onReturning(ctx, delete.ReturningList, append(delete.UsingClause, &pg_query.Node{
 			Node: &pg_query.Node_RangeVar{
 				RangeVar: delete.GetRelation(),
 			},
 		}))
+		if encryptor.encryptor == nil {
+			return false, err
+		}
 	}
 
 	return false, nil
